@@ -182,6 +182,57 @@ fn c20(args: &Args) -> Report {
             }
         }
     }
+    // negotiated versions: an INIT with each minor on a fresh server per side, then one request per opcode; replies
+    // that depend on the negotiated version (negative entries, compat layouts) must not differ between the handlers
+    let minors: [u32; 10] = [0, 3, 4, 5, 8, 22, 31, 32, 33, 38];
+    let vtrs = [Tr::Sep(8192 + 16), Tr::Virt { cuts: vec![40], wr: vec![16, 8192], gap: 8, wr_in_b: true, cache: true }];
+    for &minor in &minors {
+        for &op in ops::ALL_OPS.iter().filter(|o| **o != k::FUSE_INIT && **o != k::FUSE_DESTROY) {
+            for tr in &vtrs {
+                for sc in [Script::OkSmall, Script::Negative] {
+                    if rep.mine(idx) {
+                        let mut init = vec![0u8; k::FUSE_INIT_IN.size];
+                        fbrv::wire::put(&mut init, &k::FUSE_INIT_IN, "major", 7);
+                        fbrv::wire::put(&mut init, &k::FUSE_INIT_IN, "minor", minor as u64);
+                        fbrv::wire::put(&mut init, &k::FUSE_INIT_IN, "max_readahead", 0x20000);
+                        fbrv::wire::put(&mut init, &k::FUSE_INIT_IN, "flags", 0x7fff_ffff);
+                        fbrv::wire::put(&mut init, &k::FUSE_INIT_IN, "flags2", 0xffff_ffff);
+                        let init = Req::new(k::FUSE_INIT, 1, init).bytes();
+                        let (label, c) = fbrv::engines::wire_eng::c02_dev1_cases(op, false).into_iter().next().unwrap();
+                        let req = c.req().bytes();
+                        // sync side
+                        rig.server = Server::new(rig.fs.clone());
+                        let _ = rig.run(false, &init, tr, Script::OkSmall);
+                        let (ex_s, log_s) = rig.run(false, &req, tr, sc);
+                        // async side
+                        rig.server = Server::new(rig.fs.clone());
+                        let _ = rig.run(true, &init, tr, Script::OkSmall);
+                        let (ex_a, log_a) = rig.run(true, &req, tr, sc);
+                        rig.server = Server::new(rig.fs.clone());
+                        rep.eval();
+                        rep.transitions += 4;
+                        let (rs, _) = client_view(tr, &ex_s);
+                        let (ra, _) = client_view(tr, &ex_a);
+                        let opn = ops::op_name(op);
+                        let trk = if tr.is_virtio() { "virtio" } else { "fusedev" };
+                        let mut diffs: Vec<(String, String)> = Vec::new();
+                        if log_s != log_a {
+                            diffs.push(("call-differs@negotiated-version".into(), format!("after INIT 7.{}: sync handler called {:?}, async handler called {:?}", minor, log_s, log_a)));
+                        }
+                        if rs != ra {
+                            diffs.push(("reply-differs@negotiated-version".into(), format!("after INIT 7.{} ({}): sync emitted {:?}, async emitted {:?}", minor, sc.name(), rs.iter().map(|r| hex(&r[..r.len().min(48)])).collect::<Vec<_>>(), ra.iter().map(|r| hex(&r[..r.len().min(48)])).collect::<Vec<_>>())));
+                        }
+                        rep.outcome(&format!("{}:{}:v:{}", opn, trk, if diffs.is_empty() { "same" } else { "DIFFERENT" }));
+                        rep.state_of(&("versioned", minor, op, tr, sc.name()));
+                        for (class, msg) in diffs {
+                            rep.violation(&format!("C20/{}/{}/{}", opn, class, trk), &msg, || json!({"engine": "async-versioned", "case": label, "minor": minor, "script": sc.name(), "transport": tr.to_replay()}));
+                        }
+                    }
+                    idx += 1;
+                }
+            }
+        }
+    }
     rep.set("total_cases_all_shards", json!(idx));
     rep
 }
